@@ -7,6 +7,9 @@ def opt(name, d):
     if name in args:
         i = args.index(name); v = args[i + 1]; del args[i:i + 2]; return v
     return d
+evdir = opt("--evidence-dir", "/verif/evidence")
+if evdir != "/verif/evidence":
+    os.makedirs(evdir, exist_ok=True); os.environ["VERIF_EVIDENCE_DIR"] = evdir
 tier = opt("--tier", "quick"); seeds = [int(x) for x in opt("--seeds", "1").split(",")]; par = int(opt("--par", "4"))
 checks = args or sorted(os.path.basename(p)[:-3] for p in glob.glob("/verif/checks/C[0-9][0-9].py"))
 out = "/var/tmp/runall"; os.makedirs(out, exist_ok=True)
@@ -16,7 +19,7 @@ def one(ck, seed):
     open("%s/%s-%s-s%d.log" % (out, ck, tier, seed), "w").write(p.stdout)
     hits = {}
     try:
-        ev = json.load(open("/verif/evidence/%s.json" % ck))
+        ev = json.load(open("%s/%s.json" % (evdir, ck)))
         if ev.get("seed") == seed and ev.get("tier") == tier:
             hits = ev["coverage"].get("known_findings_hit", {})
     except Exception:
